@@ -46,6 +46,40 @@ def competing_specs(tier):
                        {"name": "WP1", "cap": cap, "targets": [0, 1], "facilities": [{"name": "F1", "skills": dict(full)}]}]
                 teams = [{"name": "TM0", "targets": [0, 1], "workers": [{"name": "W%d" % i, "skills": dict(full), "fskills": {"F0": 1.0, "F1": 1.0}} for i in range(2)]}]
                 out.append({"tasks": tasks, "links": links, "components": comps, "workplaces": wps, "teams": teams})
+    # assembly: parent with two children that are processed first (FS into the parent's task), parts area + dock
+    for cap_parts in (1.0, 2.0):
+        for cap_dock in (1.0, 3.0):
+            for nfp in (True, False):
+                names = ["T0", "T1", "T2"]
+                full = {nm: 1.0 for nm in names}
+                tasks = [{"name": "T0", "work": 2.0, "nf": True}, {"name": "T1", "work": 2.0, "nf": True}, {"name": "T2", "work": 1.0, "nf": nfp}]
+                comps = [{"name": "P", "tasks": [2], "children": [1, 2]}, {"name": "CA", "tasks": [0]}, {"name": "CB", "tasks": [1]}]
+                wps = [{"name": "PARTS", "cap": cap_parts, "targets": [0, 1], "facilities": [{"name": "F0", "skills": dict(full)}, {"name": "F1", "skills": dict(full)}]},
+                       {"name": "DOCK", "cap": cap_dock, "targets": [2], "facilities": [{"name": "F2", "skills": dict(full)}]}]
+                teams = [{"name": "TM0", "targets": [0, 1, 2], "workers": [{"name": "W%d" % i, "skills": dict(full), "fskills": {"F0": 1.0, "F1": 1.0, "F2": 1.0}} for i in range(2)]}]
+                out.append({"tasks": tasks, "links": [[0, 2, "FS"], [1, 2, "FS"]], "components": comps, "workplaces": wps, "teams": teams})
+    # partial conveyor layouts: two components with chained tasks (cut -> weld), two cutting and two welding places,
+    # every subset of the four possible cut->weld links declared
+    import itertools as _it
+
+    for mask in range(16):
+        for caps in ((1.0, 1.0, 1.0, 1.0), (1.0, 1.0, 2.0, 1.0)):
+            if tier == "quick" and caps[2] == 2.0 and mask not in (1, 2, 4, 8, 9, 6):
+                continue
+            names = ["A0", "B0", "A1", "B1"]
+            tasks = [{"name": "A0", "work": 1.0, "nf": True}, {"name": "B0", "work": 2.0, "nf": True}, {"name": "A1", "work": 2.0, "nf": True}, {"name": "B1", "work": 1.0, "nf": True}]
+            links = [[0, 1, "FS"], [2, 3, "FS"]]
+            comps = [{"name": "X", "tasks": [0, 1]}, {"name": "Y", "tasks": [2, 3]}]
+            cutsk = {"A0": 1.0, "A1": 1.0}
+            weldsk = {"B0": 1.0, "B1": 1.0}
+            wps = [{"name": "CUT1", "cap": caps[0], "targets": [0, 2], "facilities": [{"name": "FC1", "skills": dict(cutsk)}]},
+                   {"name": "CUT2", "cap": caps[1], "targets": [0, 2], "facilities": [{"name": "FC2", "skills": dict(cutsk)}]},
+                   {"name": "WELD1", "cap": caps[2], "targets": [1, 3], "facilities": [{"name": "FW1", "skills": dict(weldsk)}], "inputs": [i for i in (0, 1) if mask >> i & 1]},
+                   {"name": "WELD2", "cap": caps[3], "targets": [1, 3], "facilities": [{"name": "FW2", "skills": dict(weldsk)}], "inputs": [i for i in (0, 1) if mask >> (2 + i) & 1]}]
+            full = {nm: 1.0 for nm in names}
+            fs = {"FC1": 1.0, "FC2": 1.0, "FW1": 1.0, "FW2": 1.0}
+            teams = [{"name": "TM0", "targets": [0, 1, 2, 3], "workers": [{"name": "W%d" % i, "skills": dict(full), "fskills": dict(fs)} for i in range(2)]}]
+            out.append({"tasks": tasks, "links": links, "components": comps, "workplaces": wps, "teams": teams})
     return out
 
 
@@ -63,7 +97,8 @@ def run(tier, seed):
     meta = {
         "level": "model_checking",
         "rule": "the FAC family (flat / shared / parent-child / extra components x 1-2 workplaces with capacities 1/2, conveyor link, facility layouts) plus 2-3 components of space 0.5/1 competing "
-        "for two or three workplaces with capacities over {0.5,1,1.5,2}, conveyor none/chain/fan-in, both workplace rules, FS link or none, and a component carrying two tasks; each explored over "
+        "for two or three workplaces with capacities over {0.5,1,1.5,2}, conveyor none/chain/fan-in, both workplace rules, FS link or none, a component carrying two tasks, an assembly whose two children are processed in a parts area before the parent is docked, and two components with chained cut->weld tasks "
+        "over four workplaces with every subset of the four possible conveyor links declared; each explored over "
         "absence answers (first three facilities, project) up to horizon H with <= D non-default answers; invariants on live state at every phase, on the placement events logged by the harness' "
         "component/workplace subclasses, and on the logs; non-trivial = distinct (model, workplace, placed set) and (model, component, from, to) moves",
         "bounds": {"H": H, "D": D, "base_models": len(its)},
